@@ -93,3 +93,40 @@ Theorem if_modified_since_ignores_a_date_followed_by_bytes : forall yc s lm,
   full_match s = false -> if_modified_since yc s lm = true.
 Proof. intros yc s lm. apply trailing_bytes_void_the_date. exact ims_whole_value_as_modelled. Qed.
 Print Assumptions if_modified_since_ignores_a_date_followed_by_bytes.
+
+(* ---------------------------------------------------------------- conditional requests (C15/EtagModel.v, C15/EtagProofs.v) *)
+From Coq Require Import List.
+From LV Require Import C15.EtagModel C15.EtagProofs.
+Local Open Scope N_scope.
+
+(* the If-None-Match scanner decides exactly the RFC 9110 comparison on every grammatical field value: any number of entity tags, weak or
+   strong, separated by commas with arbitrary optional white space and empty list elements, before and after.  A tag matches when the
+   opaque parts are equal and - under strong comparison - neither side is weak.  (Opaque tags here exclude the comma, which RFC 9110 etagc
+   allows: tags containing commas are covered by the correspondence and the RFC monitor only.) *)
+Theorem if_none_match_scanner_is_the_rfc_comparison : forall we tb its trail weak_ok,
+  forallb okc tb = true -> all_sep trail = true -> wf_items true its = true ->
+  etag_matches (item_text we tb) (render its trail) weak_ok = existsb (rfc_match weak_ok we tb) its.
+Proof. exact etag_matches_is_rfc_comparison. Qed.
+Print Assumptions if_none_match_scanner_is_the_rfc_comparison.
+
+Theorem if_none_match_star_matches_any : forall etag weak_ok, etag_matches etag [42] weak_ok = true.
+Proof. exact star_matches_any. Qed.
+
+(* a conditional GET/HEAD on a representation that has an entity tag: 304 iff If-None-Match matches it, by weak comparison, or strong
+   comparison when a Range header is present - whatever If-Modified-Since says *)
+Theorem conditional_get_is_304_iff_if_none_match_matches : forall yc rng we tb its trail ims lmod lmt,
+  forallb okc tb = true -> all_sep trail = true -> wf_items true its = true ->
+  cachable yc true rng (Some (render its trail)) ims (Some (item_text we tb)) lmod lmt
+  = if existsb (rfc_match (negb rng) we tb) its then C304 else CPass.
+Proof. exact conditional_get_304_iff_if_none_match_matches. Qed.
+Print Assumptions conditional_get_is_304_iff_if_none_match_matches.
+
+(* absent If-None-Match, If-Modified-Since decides: 304 iff the date is the Last-Modified string itself or parses to an instant not earlier
+   than the modification time (if_modified_since: the theorems above) *)
+Theorem without_if_none_match_the_date_decides : forall yc v lm e lmt rng,
+  cachable yc true rng None (Some v) e (Some lm) lmt = if list_eqb lm v || negb (if_modified_since yc v lmt) then C304 else CPass.
+Proof. exact if_modified_since_only_without_if_none_match. Qed.
+
+Theorem only_get_and_head_are_answered_304 : forall yc gh rng inm ims e lmod lmt, cachable yc gh rng inm ims e lmod lmt = C304 -> gh = true.
+Proof. exact not_modified_only_for_get_head. Qed.
+Print Assumptions only_get_and_head_are_answered_304.
